@@ -18,6 +18,6 @@ for f, src in srcs.items():
     if r.returncode != 0:
         sys.exit("instrumenting %s failed" % src)
     rep["/repo/" + f] = dst
-for pkg in ("vsched", "vsync", "simnet"):
+for pkg in ("vsched", "vsync", "vatomic", "simnet"):
     rep["/repo/verifshim/%s/%s.go" % (pkg, pkg)] = os.path.join(here, "shim", pkg, pkg + ".go")
 json.dump({"Replace": rep}, open(os.path.join(out, "overlay.json"), "w"), indent=1)
